@@ -76,6 +76,10 @@ pub struct LiveCase {
     /// (odd selector / 4) strings of up to 100 KiB each
     #[serde(default)]
     pub bulk: Option<u8>,
+    /// state of the DUMPING thread: pinned to a single CPU (a crash reporter running under taskset /
+    /// in a cpuset).  The machine the dump describes still has all its processors.
+    #[serde(default)]
+    pub dumper_pinned: Option<u8>,
 }
 
 fn protection_of(p: u8) -> u32 {
@@ -242,7 +246,21 @@ pub fn check_live(c: &LiveCase) -> Verdict {
             *st2.lock().unwrap() = Some(fd_table());
         }
     });
-    let img = match with_hook(hook, || run_dump(&mut w, &mut dest)) {
+    let mut old_mask: libc::cpu_set_t = unsafe { std::mem::zeroed() };
+    let pinned = c.dumper_pinned.is_some() && unsafe { libc::sched_getaffinity(0, std::mem::size_of::<libc::cpu_set_t>(), &mut old_mask) } == 0;
+    if pinned {
+        unsafe {
+            let allowed: Vec<usize> = (0..libc::CPU_SETSIZE as usize).filter(|i| libc::CPU_ISSET(*i, &old_mask)).collect();
+            let mut one: libc::cpu_set_t = std::mem::zeroed();
+            libc::CPU_SET(allowed[c.dumper_pinned.unwrap() as usize % allowed.len()], &mut one);
+            libc::sched_setaffinity(0, std::mem::size_of::<libc::cpu_set_t>(), &one);
+        }
+    }
+    let out = with_hook(hook, || run_dump(&mut w, &mut dest));
+    if pinned {
+        unsafe { libc::sched_setaffinity(0, std::mem::size_of::<libc::cpu_set_t>(), &old_mask) };
+    }
+    let img = match out {
         DumpOutcome::Ok(v) => v,
         DumpOutcome::Err(e) => return Verdict::pass_c(None, vec![format!("dump-error:{}", e.split('(').next().unwrap_or(""))]),
         DumpOutcome::Panic(l, m) => return panic_verdict(&l, &m),
@@ -338,6 +356,9 @@ pub fn check_live(c: &LiveCase) -> Verdict {
     }
     // linker debug stream
     let mut classes = vec![];
+    if pinned {
+        classes.push("dumping-thread-pinned-to-one-cpu".to_string());
+    }
     if let Some(k) = c.bulk {
         classes.push(format!("bulk-{}:{}", if (k >> 2) & 1 == 0 { "environment" } else { "arguments" }, ["200KiB", "2MiB", "3MiB", "5MiB"][k as usize % 4]));
     }
@@ -407,7 +428,7 @@ pub fn live_strategy() -> impl Strategy<Value = LiveCase> {
         proptest::collection::vec((any::<u8>(), 0u8..8, any::<bool>()), 0..6),
         0u8..4,
         any::<bool>(),
-        (proptest::bool::weighted(0.3), proptest::bool::weighted(0.25), proptest::option::weighted(0.05, any::<u8>())),
+        (proptest::bool::weighted(0.3), proptest::bool::weighted(0.25), proptest::option::weighted(0.05, any::<u8>()), proptest::option::weighted(0.25, any::<u8>())),
         prop_oneof![
             3 => Just(AuxvMode::Kernel),
             2 => Just(AuxvMode::TrueDirect),
@@ -415,7 +436,7 @@ pub fn live_strategy() -> impl Strategy<Value = LiveCase> {
             3 => valid_dso_strategy().prop_map(AuxvMode::Synthetic),
         ],
     )
-        .prop_map(|(argv, env, rlimits, fds, maps, parked, blamed_other, (fd_churn, leader_exit, bulk), auxv)| LiveCase { argv, env, rlimits, fds, maps, parked, blamed_other, auxv, fd_churn, leader_exit, bulk })
+        .prop_map(|(argv, env, rlimits, fds, maps, parked, blamed_other, (fd_churn, leader_exit, bulk, dumper_pinned), auxv)| LiveCase { argv, env, rlimits, fds, maps, parked, blamed_other, auxv, fd_churn, leader_exit, bulk, dumper_pinned })
 }
 
 pub fn run(ctx: &mut LaneCtx) {
@@ -424,7 +445,7 @@ pub fn run(ctx: &mut LaneCtx) {
         SubSpec {
             name: "live-os-streams",
             cases: (800, 25_000),
-            rule: "generated targets: argv 0..20 (empty, non-UTF-8, long), environment 0..50 variables (one case in twenty adds 0.2 / 2 / 3 / 5 MiB of environment or argument strings, the target being executed under a 64 MiB stack limit so that the kernel accepts them), changed rlimits, 0..60 descriptors of 7 kinds, shared/private mappings of all permissions, blamed thread main/other, optionally a thread-group leader that has exited on its own (zombie leader, dump blamed on a live thread); auxv mode {kernel, true direct, direct with some values zero, direct values leading to a synthetic linker list in the target}; oracle as in assumptions; non-trivial = >=10 descriptors of >=3 kinds, or synthetic chain, or partially zero direct auxv; distinct = hash of case",
+            rule: "generated targets: argv 0..20 (empty, non-UTF-8, long), environment 0..50 variables (one case in twenty adds 0.2 / 2 / 3 / 5 MiB of environment or argument strings, the target being executed under a 64 MiB stack limit so that the kernel accepts them), changed rlimits, 0..60 descriptors of 7 kinds, shared/private mappings of all permissions, blamed thread main/other, the dumping thread free or pinned to a single CPU (the system information must still describe the machine), optionally a thread-group leader that has exited on its own (zombie leader, dump blamed on a live thread); auxv mode {kernel, true direct, direct with some values zero, direct values leading to a synthetic linker list in the target}; oracle as in assumptions; non-trivial = >=10 descriptors of >=3 kinds, or synthetic chain, or partially zero direct auxv; distinct = hash of case",
             strategy: live_strategy().boxed(),
             max_shrink_iters: 150,
             log_current: true,
